@@ -1,19 +1,19 @@
 SPECIFICATION Spec
 CONSTANTS
-  Pair = "LLTEM"
-  MaxDepth = 4
-  MaxCopies = 2
-  MaxEdits = 1
+  Pair = "LLFEM"
+  MaxDepth = 3
+  MaxCopies = 1
+  MaxEdits = 0
   MaxReopens = 1
-  EditOps = {"channels", "timing_mark"}
-  CopyModes = {"plain-same", "mask-same", "extent-same", "plain-other", "extent-other"}
-  MaskNames = {"lo", "mid"}
+  EditOps = {}
+  CopyModes = {"plain-same", "extent-same", "plain-other"}
+  MaskNames = {"lo"}
   Focus = TRUE
   BadValues = FALSE
   ValuesPerOp = 1
-  EditWhen = "copied"
+  EditWhen = "always"
   Extras = 0
-  IdInGroup = FALSE
+  IdInGroup = TRUE
   InGroup = FALSE
   Deviations = {}
 VIEW vw
